@@ -292,6 +292,39 @@ func c10SchemaMulti(c *explore.Ctx, s *explore.SubStats, in kitInput) {
 		s.Nontrivial++
 		s.Outcome("rejected")
 	}
+	// the caller's slice of sources (with spare capacity) is the caller's: loading it twice gives
+	// the same result and leaves it as it was
+	{
+		verifhook.OrderPolicy, verifhook.Perm = 0, nil
+		ss := append(make([]*ast.Source, 0, 8), srcs()...)
+		names := func() string {
+			var ns []string
+			for _, x := range ss {
+				ns = append(ns, x.Name)
+			}
+			return strings.Join(ns, ",")
+		}
+		before := names()
+		load := func() string {
+			var err error
+			var sch *ast.Schema
+			r := guarded(3_000_000, 5000, func() { sch, err = gqlparser.LoadSchema(ss...) })
+			if r.Panicked {
+				return "panic: " + r.PanicVal
+			}
+			if err == nil {
+				return "loaded\n" + schemaDump(sch)
+			}
+			return errSig(errToList(err))
+		}
+		a := load()
+		b := load()
+		s.Transitions += 2
+		if a != b || names() != before {
+			c.Report(s, explore.Violation{Key: "nondet/reload-same-sources " + c10Template(a, b), Input: explore.J(in), Rendered: gen.KitMenu[in.Items[0]] + "\n---\n" + gen.KitMenu[in.Items[1]],
+				Detail: "loading the same slice of sources a second time gives another result, or the slice was changed (" + before + " → " + names() + ")", Expected: a, Observed: b})
+		}
+	}
 	if pol != "" {
 		c.Report(s, explore.Violation{Key: "nondet/load-map-order multi-source " + c10Template(base, diff), Input: explore.J(in), Rendered: gen.KitMenu[in.Items[0]] + "\n---\n" + gen.KitMenu[in.Items[1]],
 			Detail: "the result of loading several source files depends on map iteration order (" + pol + ")", Expected: base, Observed: diff})
